@@ -6,7 +6,7 @@
    prefix parses to. The page linkage (next / first / last / off headers), the write buffer and flush
    selection are tied to this by the campaign (model parser run on the real page chain; slice-of-events
    oracle through the public API). *)
-From VF Require Import PQ PQProofs.
+From VF Require Import PQ PQProofs PQReaderProofs.
 
 Theorem C05_framing_roundtrip : forall P evs pre post,
   Forall (fun e => Z.of_nat (length e) < 256 ^ Z.of_nat hdr_len) evs ->
@@ -25,6 +25,34 @@ Theorem C05_later_appends_do_not_disturb : forall P a b,
 Proof. exact prefix_stable. Qed.
 Print Assumptions C05_later_appends_do_not_disturb.
 
+(* the reader as a state machine (Next / partial Read / skip of the unread rest): for every list of non-empty
+   events, every payload size, every context in the stream and EVERY sequence of calls, the reader on the
+   bytes reports the same sizes and returns the same bytes as the same calls on the list of events *)
+Theorem C05_reader_refines_events : forall P pre evs post ops,
+  Forall okev evs ->
+  rd_run P (pre ++ layout_from P (length pre) evs ++ post) (length evs)
+         {| r_pos := length pre; r_left := None; r_id := 0 |} ops
+  = sp_run {| s_rest := evs; s_cur := None |} ops.
+Proof. exact reader_refines_events. Qed.
+Print Assumptions C05_reader_refines_events.
+
+Theorem C05_reader_drains_everything : forall P pre evs post,
+  Forall okev evs ->
+  rd_run P (pre ++ layout_from P (length pre) evs ++ post) (length evs)
+         {| r_pos := length pre; r_left := None; r_id := 0 |} (drain_ops evs) = drain_out evs.
+Proof. exact reader_drains_everything. Qed.
+
+(* the page-level cursor (Skip / Read across page ends) moves by exactly the bytes asked for; a cursor that
+   changes page when fewer than a header's worth of bytes are left (a seeded defect) does not *)
+Theorem C05_cursor_moves_exactly : forall fuel P pg off n,
+  (0 < P)%nat -> (off <= P)%nat -> (n <= fuel)%nat ->
+  let '(pg', off') := cur_adv fuel P pg off n in
+  cur_lin P pg' off' = (cur_lin P pg off + n)%nat /\ (off' <= P)%nat.
+Proof. exact cur_adv_lin. Qed.
+Theorem C05_cursor_with_header_threshold_refuted : exists P pg off n,
+  (off <= P)%nat /\ let '(pg', off') := cur_adv_thr hdr_len n P pg off n in cur_lin P pg' off' <> (cur_lin P pg off + n)%nat.
+Proof. exact skip_threshold_refuted. Qed.
+
 Theorem C05_position_roundtrip : forall ps page off, 0 < ps -> 0 < page -> 0 < off <= ps ->
   parse_position ps (write_position ps page off) = (page, off).
 Proof. exact position_roundtrip. Qed.
@@ -37,3 +65,10 @@ Example C05_ex : parse_from 12 (layout 12 [[1;2;3;4;5;6]; [7]; [8;9;10;11;12;13;
                  = Some [[1;2;3;4;5;6]; [7]; [8;9;10;11;12;13;14;15;16]]
                  /\ length (layout 12 [[1;2;3;4;5;6]; [7]]) = 17%nat.
 Proof. split; reflexivity. Qed.
+
+(* non-vacuity: Next, a partial Read, Next (skips the rest), Read of everything, Next at the end *)
+Example C05_ex_reader :
+  rd_run 12 (layout 12 [[1;2;3;4;5;6]; [7]; [8;9;10]]) 3 {| r_pos := 0; r_left := None; r_id := 0 |}
+         [RNext; RRead 4; RNext; RRead 9; RNext; RRead 2; RRead 2; RNext]
+  = [(Some 6%nat, []); (None, [1;2;3;4]); (Some 1%nat, []); (None, [7]); (Some 3%nat, []); (None, [8;9]); (None, [10]); (Some 0%nat, [])].
+Proof. vm_compute. reflexivity. Qed.
